@@ -60,3 +60,83 @@ theorem processOne_refusals (a b c d s : Bool) :
   cases s <;> simp [Pipeline.processOne]
 
 end Jwt
+
+namespace Jwt
+open Jwt.Generated
+
+/-- the translated `jwk_process_values`, fed with what the model makes of the JWK's alg / use / key_ops / kid members
+(the kid copy is allocated: `kidAllocNull = false`) -/
+def processValuesGen (jwk : Json) : Nat × Bool × Bool × Bool × Bool × Bool × Bool :=
+  let a := jwk.objGet N.alg
+  let u := jwk.objGet [117, 115, 101]
+  let o := jwk.objGet [107, 101, 121, 95, 111, 112, 115]
+  let k := jwk.objGet [107, 105, 100]
+  Pipeline.processValues a.isNone (kIsStr a) u.isNone (kIsStr u)
+    (match u.bind Json.strVal with | some s => jwtStrcmp s [115, 105, 103] = 0 | none => false)
+    (match u.bind Json.strVal with | some s => jwtStrcmp s [101, 110, 99] = 0 | none => false)
+    o.isNone (match o with | some (.arr _) => true | _ => false) k.isNone (kIsStr k)
+    (match k.bind Json.strVal with | some s => s = [] | none => true) false
+
+/-- what the generated `jwk_process_values` does, as a function of its tests alone (all 4096 combinations, by evaluation):
+a message is written exactly for an `alg` that is there and is not a string -- and then nothing else is looked at; otherwise
+alg / use / key_ops / kid are stored exactly under their own conditions, independently of each other (the copy of the
+key id is allocated: the last parameter is `false`; C17 treats the other case). -/
+theorem processValues_flags : ∀ a b c d e f g h i j k : Bool,
+    let r := Pipeline.processValues a b c d e f g h i j k false
+    r.1 = 0 ∧ r.2.1 = (!a && !b) ∧ r.2.2.1 = (!a && b) ∧
+    (r.2.1 = true → r.2.2.2.1 = false ∧ r.2.2.2.2.1 = false ∧ r.2.2.2.2.2.1 = false ∧ r.2.2.2.2.2.2 = false) ∧
+    (r.2.1 = false → r.2.2.2.1 = (!c && d && e) ∧ r.2.2.2.2.1 = (!c && d && !e && f) ∧ r.2.2.2.2.2.1 = (!g && h) ∧
+      r.2.2.2.2.2.2 = (!i && j && !k)) := by
+  decide +kernel
+
+/-- the model's `jwk_process_values`: flagged exactly for an `alg` that is there and is not a string (or when it was
+flagged before); otherwise the key id is the non-empty string `kid`, if there is one -/
+theorem processValues_model (jwk : Json) (it : Item) :
+    (processValues jwk it).error = (it.error || ((jwk.objGet N.alg).isSome && !(kIsStr (jwk.objGet N.alg)))) ∧
+    (((jwk.objGet N.alg).isSome && !(kIsStr (jwk.objGet N.alg))) = false →
+      (processValues jwk it).kid = (match (jwk.objGet [107, 105, 100]).bind Json.strVal with | some s => if s = [] then it.kid else some s | none => it.kid)) := by
+  have hrest : ∀ it' : Item, (processValues.rest jwk it').error = it'.error ∧
+      (processValues.rest jwk it').kid = (match (jwk.objGet [107, 105, 100]).bind Json.strVal with | some s => if s = [] then it'.kid else some s | none => it'.kid) := by
+    intro it'
+    simp only [processValues.rest]
+    constructor
+    · (repeat' split) <;> simp_all
+    · (repeat' split) <;> simp_all
+  simp only [processValues, kIsStr]
+  cases ha : jwk.objGet N.alg with
+  | none => simp [(hrest it).1, (hrest it).2]
+  | some av =>
+    cases av <;> simp [Json.strVal, Item.fail, (hrest _).1, (hrest _).2]
+
+/-- **`jwk_process_values` as modelled = as written**: the item is flagged exactly when the generated code writes a
+message, and -- when it does not -- a key id is stored exactly when the generated code stores one (the `kid` member is a
+non-empty string), and it is that string. -/
+theorem processValues_generated (jwk : Json) (it : Item) (hit : it.error = false) :
+    ((processValues jwk it).error = (processValuesGen jwk).2.1) ∧
+    ((processValuesGen jwk).2.1 = false →
+      ((processValuesGen jwk).2.2.2.2.2.2 = true ↔ ∃ s, (jwk.objGet [107, 105, 100]).bind Json.strVal = some s ∧ s ≠ [] ∧ (processValues jwk it).kid = some s)) := by
+  obtain ⟨m1, m2⟩ := processValues_model jwk it
+  have pf := processValues_flags (jwk.objGet N.alg).isNone (kIsStr (jwk.objGet N.alg)) (jwk.objGet [117, 115, 101]).isNone (kIsStr (jwk.objGet [117, 115, 101]))
+    (match (jwk.objGet [117, 115, 101]).bind Json.strVal with | some s => jwtStrcmp s [115, 105, 103] = 0 | none => false)
+    (match (jwk.objGet [117, 115, 101]).bind Json.strVal with | some s => jwtStrcmp s [101, 110, 99] = 0 | none => false)
+    (jwk.objGet [107, 101, 121, 95, 111, 112, 115]).isNone (match jwk.objGet [107, 101, 121, 95, 111, 112, 115] with | some (.arr _) => true | _ => false)
+    (jwk.objGet [107, 105, 100]).isNone (kIsStr (jwk.objGet [107, 105, 100]))
+    (match (jwk.objGet [107, 105, 100]).bind Json.strVal with | some s => s = [] | none => true)
+  simp only at pf
+  obtain ⟨_, pw, _, _, pn⟩ := pf
+  have hw : (processValuesGen jwk).2.1 = ((jwk.objGet N.alg).isSome && !(kIsStr (jwk.objGet N.alg))) := by
+    simp only [processValuesGen]; rw [pw]; cases jwk.objGet N.alg <;> simp
+  refine ⟨by rw [m1, hit, hw]; simp, ?_⟩
+  intro hnw
+  have hk := (pn (by simpa [processValuesGen] using hnw)).2.2.2
+  have hm := m2 (by rw [← hw]; exact hnw)
+  simp only [processValuesGen]
+  rw [hk, hm]
+  cases hkid : jwk.objGet [107, 105, 100] with
+  | none => simp [kIsStr]
+  | some kv =>
+    cases kv <;> simp [kIsStr, Json.strVal]
+    rename_i s
+    by_cases hs : s = [] <;> simp [hs]
+
+end Jwt
